@@ -583,8 +583,14 @@ fn scenario(s: Scn) -> ScenarioOut {
     let mut pend: BTreeMap<usize, Vec<Pending>> = BTreeMap::new(); // per destination socket
     // model states per position for the racy legitimacy test
     let mut sends_all: Vec<(usize, usize, SocketAddr, Dst, Vec<u8>, u64)> = vec![]; // (pos, sender, dst, dstk, data, id)
+    // racy scenarios: model state after every log position (legitimacy may hold at
+    // any moment between the send and the receipt, e.g. at delivery time)
+    let mut snapshots: Vec<BTreeMap<usize, MSock>> = vec![];
     for (p, (step, e)) in evs.iter().enumerate() {
         apply(&mut model, e);
+        if s.racy {
+            snapshots.push(model.clone());
+        }
         match e {
             Ev::Bound { sock, ok: false, err, .. } => {
                 // model: a bind fails only when the port is already bound on that host
@@ -645,12 +651,14 @@ fn scenario(s: Scn) -> ScenarioOut {
                         // racy scenarios: legitimate if the socket is a target under the model state at receive time
                         let mut legit = false;
                         if s.racy {
-                            for (_, sender, dst, dstk, d, _) in sends_all.iter().rev().take(64) {
+                            'search: for (sp, sender, dst, dstk, d, _) in sends_all.iter().rev().take(64) {
                                 if d.len().min(*buf) == *n && d[..*n] == data[..] {
-                                    if let Some((o, _)) = targets(&s, &ips, &model, *sender, *dst, dstk).get(sock) {
-                                        if o == origin {
-                                            legit = true;
-                                            break;
+                                    for q in *sp..=p {
+                                        if let Some((o, _)) = targets(&s, &ips, &snapshots[q], *sender, *dst, dstk).get(sock) {
+                                            if o == origin {
+                                                legit = true;
+                                                break 'search;
+                                            }
                                         }
                                     }
                                 }
